@@ -335,6 +335,16 @@ func (fr *Frame) modularCall(ins ssa.Instruction, callee *ssa.Function, ct *Cont
 		}
 		q.assume(fr.cur.reach, t)
 	}
+	var accrued []string
+	if q.opts.Cost {
+		for _, a := range ct.Accrues {
+			if t, err := env.evalInt(a.Expr); err == nil {
+				accrued = append(accrued, t)
+			} else {
+				q.note(fmt.Sprintf("contract of %s: accrues: %v", fnKey(callee), err))
+			}
+		}
+	}
 	pre := st.clone()
 	ms := q.eng.modsets[callee]
 	if ct.Modifies != nil {
@@ -377,6 +387,9 @@ func (fr *Frame) modularCall(ins ssa.Instruction, callee *ssa.Function, ct *Cont
 			continue
 		}
 		q.assume(fr.cur.reach, t)
+	}
+	for _, t := range accrued {
+		st.v["$acc"] = "(+ " + q.get(st, "$acc") + " (ite (>= " + t + " 0) " + t + " 0))"
 	}
 	if pk != "" {
 		// the caller's peak follows (when the callee works on the same object), and what the callee looked at beyond
@@ -951,7 +964,7 @@ func (fr *Frame) loopHeaderState(li *loopInfo, in *State) *State {
 	return hs
 }
 
-var ghostLoopHavoc = map[string]bool{"$ticks": true, "$hw": true, "$look": true}
+var ghostLoopHavoc = map[string]bool{"$ticks": true, "$hw": true, "$look": true, "$acc": true}
 
 func (fr *Frame) loopSpecFor(li *loopInfo) *LoopSpec {
 	ct := fr.contract
